@@ -30,6 +30,15 @@ Parse monitors are skipped for the statements the alchemy parser cannot translat
 (C06 matters; counted as ``parser_fragment_skipped``).  Feeds of lower priority than the selected one are not judged -
 the property says nothing about them.
 
+Known findings on the pinned tree (known_findings.d/C09.json; each has a directed case, so its KNOWN-FINDING line is printed
+on every run; a repair of ``parser.bypass`` / ``visit_reference`` / ``Importer.Slot`` was proposed to the lead):
+  matched-feed-unprovisioned:{join,query,set}-advertised-without-inner-tables - ``parser.bypass`` runs the wrapped visit
+      (which resolves the inner tables) before it consults the feed's mapping for the sub-statement;
+  matched-feed-unprovisioned:reference-advertised-without-inner-tables - ``visit_reference`` never consults the mapping;
+  match-raises-AttributeError:string-reference-slot - ``Slot('name')`` takes ``setup.Feed.resolve()``'s tuple for a feed.
+A half repair (mapping consulted first, but the origins inside the provided sub-statement left unregistered) shows up
+as ``selected-parser-raises-KeyError:via-...``.
+
 Harness sanity: every advert that is a part of the statement is compared (hash and ==) with the in-situ object; a
 mismatch, or a foreign advert that forml's equality conflates with a part of the statement, is C08's subject: the advert
 is dropped and counted (``advert_identity_mismatch`` / ``foreign_advert_conflated``), never reported here.
@@ -72,7 +81,7 @@ SUB = ('reference', 'join', 'set', 'query')
 
 
 def shards(tier):
-    return 12 if tier == 'quick' else 16
+    return 16
 
 
 def floors(tier):
@@ -479,7 +488,7 @@ def corpus(ctx, env):
     for index, ast in enumerate(g.enumerate_asts(2, ctx.rng('enumerate'), 1)):  # same enumeration in every shard
         if ctx.mine(index) and (not ctx.quick or index // ctx.nshards % 5 == ctx.seed % 5):
             out.append(ast)
-    for _ in range(ctx.pick(40, 1200)):
+    for _ in range(ctx.pick(30, 1200)):
         out.append(g.random_ast(rng, rng.choice((2, 2, 3))))
     clean = []
     for ast in out:
